@@ -65,6 +65,10 @@ def session(draw):
     if drop:
         plan.insert(draw(st.integers(0, len(plan))), {'do': 'drop', 'how': drop})
     local = draw(st.sampled_from([None, None, None, 0.0, 0.2, 2.0, 7.0]))
+    if not lossy and draw(st.integers(0, 7)) == 0:
+        # a slow node: the reply to the first describe (during connect) takes several seconds, but less than the time-out
+        return {'kind': 'session', 'callers': callers, 'plan': plan, 'local_disconnect': None, 'describe_delay': draw(st.sampled_from([2.0, 4.5, 6.5, 8.5])),
+                'schedule': draw(st.lists(st.integers(0, 4), min_size=10, max_size=250))}
     if lossy and draw(st.booleans()):
         # an activated node: updates keep arriving (several per second), the connection is never idle
         return {'kind': 'session', 'callers': callers, 'plan': plan, 'local_disconnect': None, 'stream': True,
@@ -112,7 +116,16 @@ class Peer:
         if action == '*IDN?':
             self.push('ISSE&SINE2020,SECoP,V2019-09-16,v1.0')
         elif action == 'describe':
-            self.push('describing . ' + json.dumps(DESCRIPTION))
+            delay = w.case.get('describe_delay') if not w.described else 0
+            w.described = True
+            if delay:
+                # a slow node: the description takes a while (less than the time-out of the client)
+                def later(peer=self):
+                    dsched.v_sleep(delay)
+                    peer.push('describing . ' + json.dumps(DESCRIPTION))
+                dsched.sched().spawn(later, _name='T:slow-describe')
+            else:
+                self.push('describing . ' + json.dumps(DESCRIPTION))
         elif action == 'activate':
             self.push('update m:value [0.5, {"t": 1}]')
             self.push('active')
@@ -144,6 +157,7 @@ class World:
         self.drop_mark = None
         self.refuse = False
         self.stop_stream = False
+        self.described = False
 
     def factory(self, addr, index):
         if self.refuse:
@@ -242,6 +256,11 @@ def run_session(case, preempt=None):
             client.connect()
         except Exception as e:   # noqa
             out['connect_exc'] = e
+            world.refuse = True
+            try:
+                client.disconnect()
+            except Exception as e2:   # noqa
+                out['final_exc'] = e2
             return
         threads = []
         peer_thread = s.spawn(world.run_plan, len(case['callers']), _name='T:peer')
@@ -255,7 +274,7 @@ def run_session(case, preempt=None):
         t_start = dsched.v_time()
         for i, c in enumerate(case['callers']):
             def caller(i=i, c=c):
-                if c['delay']:
+                if c.get('delay'):
                     dsched.v_sleep(c['delay'])
                 t0 = dsched.v_time()
                 try:
